@@ -315,7 +315,25 @@ def unit_c09_catalogue():
             return {"expected": "CID %s" % ("accepted" if want else "refused"), "observed": "accepted" if got else "refused"}
         r6 = sweep("C09/catalogue/an example is judged by the finished field", ex_cases(), ex_check, "bounded", "3 CIDs with a property row after the field row + 2 controls" + (" (recorded finding K-15)" if known15 else ""),
                    describe=lambda c: {"case": c[0], "rows": c[1]}, function="interface.Cid.add_field_format_row", unit="C09.catalogue", props=["C09", "C11", "C02"])
-        out_ = [r1, r2_, r3, r4, r5, r6]
+        # lengths that are not well-formed: overlapping items in either order, empty parts (recorded finding K-18: one order of the overlap and the empty parts are accepted)
+        known18 = findings.is_known("K-18", "C09"); k18 = []
+        def wf_cases():
+            for length, ok_ in (("1...10, 5...6", False), ("5...6, 1...10", False), ("5, 1...10", False), ("1...10, 5", False), ("...3, ...10", False), (",", False), ("1,,2", False), (",1", False),
+                                ("1...3, 5...6", True), ("5...6, 1...3", True), ("2", True), ("", True)):
+                yield (length, ok_)
+        def wf_check(c):
+            length, want = c
+            try: read([["d", "format", "delimited"], ["f", "a", "", "", length]]); got = True
+            except errors.InterfaceError: got = False
+            if got == want: return None
+            if known18 and got and not want: k18.append(length); return None
+            return {"expected": "length %r %s" % (length, "accepted" if want else "refused"), "observed": "accepted" if got else "refused"}
+        r7 = sweep("C09/catalogue/a length with overlapping items or empty parts is not well-formed", wf_cases(), wf_check, "bounded", "8 lengths that are not well-formed, 4 that are" + (" (recorded finding K-18)" if known18 else ""),
+                   describe=lambda c: {"length": c[0]}, function="ranges.Range.__init__ via interface.Cid.add_field_format_row", unit="C09.catalogue", props=["C09"])
+        out_ = [r1, r2_, r3, r4, r5, r6, r7]
+        if k18:
+            out_.append(Result("C09/K-18 witness: lengths that are not well-formed are accepted (%s)" % "; ".join(repr(x) for x in k18), "bounded", FAILED, "native", finding="K-18", cases=len(k18), props=["C09"], detail=repr(k18),
+                               replay={"verdict": "confirmed", "input": {"length": k18[0]}, "expected": "refused (overlapping items / an empty part)", "observed": "accepted"}))
         if k15:
             out_.append(Result("C09/K-15 witness: an example is judged with the data format as it is when its field row is read (%d cases)" % len(k15), "bounded", FAILED, "native", finding="K-15", cases=len(k15), props=["C09"], detail=repr(k15[0])[:300],
                                replay={"verdict": "confirmed", "input": {"rows": k15[0][1]}, "expected": "an example the finished field accepts (or the CID refused)", "observed": k15[0][0]}))
